@@ -46,6 +46,8 @@ type probe struct {
 	DelayMs int `json:"delay_ms,omitempty"`
 	// Sport: the probe's source port (a scanner told to use one: nmap -g 53); 0 = a fresh one per probe
 	Sport int `json:"sport,omitempty"`
+	// Dst: 1 = the probe goes to the sensor's second address (0: its first)
+	Dst int `json:"dst,omitempty"`
 }
 
 func (p probe) pair() string {
@@ -204,6 +206,31 @@ func scenarios(tier string, seed int64) []scenario {
 		}
 		out = append(out, sc)
 	}
+	// a sensor with two addresses, scanned by one source in one burst: a report per destination, each with the ports
+	// probed on it (some ports on both)
+	nt := 4
+	if tier == "thorough" {
+		nt = 40
+	}
+	for i := 0; i < nt; i++ {
+		r := core.NewRng(seed, "C20/two-dst", i)
+		proto := r.PickS([]string{"udp", "udp", "tcp", "icmp"})
+		sc := scenario{Sources: 1 + i%2, Kind: "two-sensor-addresses-" + proto}
+		for s := 0; s < sc.Sources; s++ {
+			for j := r.Range(3, 8); j > 0; j-- {
+				p := probe{Src: s, Proto: proto, Dst: r.Intn(2)}
+				switch proto {
+				case "tcp":
+					p.Port = 1024 + r.Intn(6)
+				case "udp":
+					p.Port = 20000 + r.Intn(6)
+				}
+				sc.Probes = append(sc.Probes, p)
+			}
+			sc.Probes = append(sc.Probes, probe{Src: s, Proto: proto, Dst: 0, Port: 20100}, probe{Src: s, Proto: proto, Dst: 1, Port: 20100})
+		}
+		out = append(out, sc)
+	}
 	// a scanner with one fixed source port whose port range contains that very port (and its neighbours), in
 	// several orders; in every other scenario it comes back after its report with the same port pairs
 	nf := 8
@@ -242,8 +269,16 @@ func scenarios(tier string, seed int64) []scenario {
 
 func srcIP(k, s int) net.IP { return net.IPv4(100, byte(64+s), byte(k>>8), byte(k)) }
 
+// me2 is the sensor's second address (set by the child when the host has a second interface)
+var me2 net.IP
+var canaryMu sync.Mutex
+
 func frame(k int, p probe, seq int) []byte {
 	src := srcIP(k, p.Src)
+	me := me
+	if p.Dst == 1 && me2 != nil {
+		me = me2
+	}
 	sport := uint16(40000 + seq)
 	if p.Sport > 0 {
 		sport = uint16(p.Sport)
@@ -275,6 +310,8 @@ type scnObs struct {
 	Events  []evObs `json:"events"`
 	Events2 []evObs `json:"events_after_second_burst,omitempty"`
 	WaitMs  int64   `json:"wait_ms"`
+	// Me2: the sensor's second address, when the scenario uses one
+	Me2 string `json:"sensor_second_address,omitempty"`
 }
 
 type params struct {
@@ -308,9 +345,17 @@ func (prop) Plan(tier string, seed int64) []core.Batch {
 
 func runScan(k int, sc scenario) scnObs {
 	id := fmt.Sprintf("canary-%d", k)
+	two := strings.HasPrefix(sc.Kind, "two-sensor-addresses")
+	canaryMu.Lock()
+	lab.CanarySecondInterface = two
 	h, err := lab.StartCanary(id, "gateway", nil, true)
-	if err != nil {
-		return scnObs{}
+	lab.CanarySecondInterface = false
+	if err == nil && two && h.Me2 != nil {
+		me2 = h.Me2
+	}
+	canaryMu.Unlock()
+	if err != nil || (two && h.Me2 == nil) {
+		return scnObs{} // (no second interface on this host: nothing to run)
 	}
 	t0 := time.Now()
 	collect := func() []evObs {
@@ -372,6 +417,9 @@ func runScan(k int, sc scenario) scnObs {
 	}
 	burst(sc.Probes, 0, 0)
 	ob := scnObs{Events: collect()}
+	if two {
+		ob.Me2 = h.Me2.String()
+	}
 	if len(sc.Again) > 0 {
 		n1 := len(ob.Events)
 		burst(sc.Again, len(sc.Probes), n1)
@@ -569,12 +617,19 @@ func (prop) Judge(b core.Batch, recs []core.Rec, exits []core.Exit) []core.Resul
 				res.Witness = map[string]interface{}{"scenario": sc, "events": ob.Events, "index": k}
 			}
 			evalBurst := func(probes []probe, events []evObs, tag string) {
-				for s := 0; s < sc.Sources; s++ {
+				for sd := 0; sd < 2*sc.Sources; sd++ {
+					// one report per source and destination: the sensor's first address and, in scenarios that use
+					// it, its second one
+					s, d := sd/2, sd%2
+					dstIP := "127.0.0.1"
+					if d == 1 {
+						dstIP = ob.Me2
+					}
 					ip := srcIP(k, s).String()
 					want := map[string]bool{}
 					protos := map[string]bool{}
 					for _, pr := range probes {
-						if pr.Src == s {
+						if pr.Src == s && pr.Dst == d {
 							want[pr.pair()] = true
 							protos[pr.Proto] = true
 						}
@@ -588,10 +643,13 @@ func (prop) Judge(b core.Batch, recs []core.Rec, exits []core.Exit) []core.Resul
 						if e.Src != ip {
 							continue
 						}
-						nev++
-						if e.Dst != "127.0.0.1" {
+						if e.Dst != "127.0.0.1" && (ob.Me2 == "" || e.Dst != ob.Me2) {
 							fail("wrong-destination"+tag, fmt.Sprintf("portscan event for %s names destination %s", ip, e.Dst))
 						}
+						if e.Dst != dstIP {
+							continue
+						}
+						nev++
 						for _, pt := range e.Ports {
 							got[pt]++
 						}
